@@ -31,7 +31,7 @@ pub fn def() -> CheckDef {
             let m = if t == Tier::Quick { 1 } else { 30 };
             let big_min = super::big::count(t) / 2;
             vec![
-                ("big_model_cases_completed", big_min),("distinct_nontrivial", 150 * m), ("colours_compared", 5000 * m), ("networks_with_shared_symbol", 50 * m), ("witness_comparisons", 2000 * m), ("constraint_variant_comparisons", 500 * m), ("wide_colours_compared", 150 * m), ("extended_cases", 300 * m), ("colour_restricted_graph_comparisons", 500 * m), ("wide_cases_with_colour_specific_answer", 20 * m)]
+                ("big_model_cases_completed", big_min),("distinct_nontrivial", 150 * m), ("colours_compared", 5000 * m), ("networks_with_shared_symbol", 50 * m), ("witness_comparisons", 2000 * m), ("constraint_variant_comparisons", 500 * m), ("wide_colours_compared", 150 * m), ("extended_cases", 300 * m), ("nested_restricted_quantifier_cases", 60 * m), ("colour_restricted_graph_comparisons", 500 * m), ("wide_cases_with_colour_specific_answer", 20 * m)]
         },
         run,
         prelude: None,
@@ -129,7 +129,38 @@ fn run(rng: &mut Rng, idx: u64, tier: Tier) -> CaseOut {
     }
     let net = crate::net::gen_net(rng, &nopts);
     let mut f = gen_formula(rng, &fopts, &net.names);
-    if extended && rng.chance(1, 2) {
+    let mut nested_family = false;
+    if extended && rng.chance(1, 4) {
+        // two NESTED restricted quantifiers, both domains colour-dependent: the inner variable ranges over the colour's own
+        // slice of its domain (not over the states that are in the domain under some other colour)
+        nested_family = true;
+        let prop = F::Prop(rng.pick(&net.names).clone());
+        let prop2 = F::Prop(rng.pick(&net.names).clone());
+        let (d1, d2) = if rng.coin() { ("d", "p") } else { ("p", "d") };
+        let d2 = if rng.chance(1, 5) { d1 } else { d2 };
+        let about_y = match rng.below(4) {
+            0 => un(Un::Not, var("y")),
+            1 => var("y"),
+            2 => un(Un::EF, var("y")),
+            _ => un(Un::Not, un(Un::EX, var("y"))),
+        };
+        let core = match rng.below(4) {
+            0 => bin(Bin::And, prop.clone(), about_y),
+            1 => bin(Bin::And, bin(Bin::And, prop.clone(), prop2.clone()), about_y),
+            2 => bin(Bin::Or, un(Un::Not, prop.clone()), about_y),
+            _ => about_y,
+        };
+        let body = match rng.below(3) {
+            0 => hyb(Hyb::Jump, "x", None, core),
+            1 => bin(Bin::And, var("x"), core),
+            _ => bin(Bin::And, un(Un::EF, var("x")), hyb(Hyb::Jump, "x", None, core)),
+        };
+        let q1 = *rng.pick(&[Hyb::Bind, Hyb::Exists, Hyb::Forall]);
+        let q2 = *rng.pick(&[Hyb::Bind, Hyb::Exists, Hyb::Forall]);
+        let inner = F::Hyb(q2, "x".to_string(), Some(d2.to_string()), Box::new(body));
+        let inner = if rng.chance(1, 3) { bin(*rng.pick(&[Bin::Or, Bin::And]), inner, un(Un::AX, var("y"))) } else { inner };
+        f = F::Hyb(q1, "y".to_string(), Some(d1.to_string()), Box::new(inner));
+    } else if extended && rng.chance(1, 2) {
         // a restricted quantifier whose body has a part that does not mention the variable (a wild-card, a pattern,
         // a proposition): only the cut to the colour's own slice of the domain keeps the colours apart
         let prop = F::Prop(rng.pick(&net.names).clone());
@@ -208,6 +239,9 @@ fn run(rng: &mut Rng, idx: u64, tier: Tier) -> CaseOut {
             sets.insert(l.to_string(), crate::world::gen_explicit_set(rng, &world).0);
         }
         out.count("extended_cases");
+        if nested_family {
+            out.count("nested_restricted_quantifier_cases");
+        }
     }
     let empty = lib_context(&world, &sys, &sets);
     let coloured = match run_ep(if extended { Ep::ExtendedDirty } else { Ep::FormulaDirty }, &text, &sys, &empty) {
